@@ -136,6 +136,12 @@ def gen_case(seed, mode, idx, cls, copy):
             mops = cmp_gen.gen_mutation(rng, b, c)
         except cmp_gen.Inapplicable:
             continue
+        try:
+            # the API may refuse the edit (e.g. a name already in use): not a mutation then
+            cmp_gen.apply_mops(b, mops)
+        except Exception:  # noqa
+            b = cmp_gen.make_copy(a, build, case['copy'])
+            continue
         case['cls'] = c + ('+steal' if c.startswith('conn_') and len(mops) == 3 else '')
         case['mutate'] = mops
         break
@@ -412,6 +418,9 @@ def run(prop, tier, seed, replay):
             continue
         except cmp_gen.Inapplicable as e:
             stats['inapplicable'] += 1
+            continue
+        except Exception as e:  # noqa
+            stats['case_error:' + type(e).__name__] += 1
             continue
         copies[case['copy']] += 1
         sizes[len(case['build']['ops'])] += 1
